@@ -391,6 +391,9 @@ package pokerface
 //@   loop 1 invariant rangeindex < len(g.gs.Players) && DECKROOM(g, (len(g.gs.Players) - (rangeindex + 1)) * g.gs.Meta.HoleCardsCount + 8)
 
 // StartRound: opens a betting round (called by the RoundPrepared handler)
+// clockwise distance of seat j from the dealer, the dealer itself counting as a full lap (it is looked at last)
+//@ pred DFROM(g, j) = ite(j == g.dealer.idx, len(g.gs.Players), DIST(g.dealer.idx, j, len(g.gs.Players)))
+
 //@ func (*game).StartRound(g) (err)
 //@   props C04 C05
 //@   requires IDLEPRE(g) && ROUNDVALID(g) && g.gs.Status.Round != "" && DECKOK(g) && g.gs.Status.CurrentEvent == "RoundPrepared"
@@ -401,7 +404,19 @@ package pokerface
 //@   ensures unchanged(PlayerState.Pot) && unchanged(PlayerState.Wager) && unchanged(PlayerState.InitialStackSize)
 //@             && g.gs.Status.CurrentWager == old(g.gs.Status.CurrentWager) && g.gs.Status.PreviousRaiseSize == old(g.gs.Status.PreviousRaiseSize)
 //@             && g.gs.Status.CurrentRoundPot == old(g.gs.Status.CurrentRoundPot) && g.gs.Status.Round == old(g.gs.Status.Round)
+//@   -- C04: who acts first. Before the flop the seat left of the big blind (the first seat clockwise after the dealer -
+//@   -- the dealer itself last - whose positions contain "bb"; heads-up that makes the dealer / small blind act first), on
+//@   -- later streets the seat left of the dealer.
+//@   ensures [C04] g.gs.Status.CurrentEvent == "RoundStarted" && old(g.gs.Status.Round) != "preflop"
+//@             ==> g.gs.Status.CurrentPlayer == ROT(g.dealer.idx, 1, len(g.gs.Players))
+//@   -- (before the flop: the search below stops on the first big blind - the two assertions after SetCurrentPlayer:3 -
+//@   --  and the RoundStarted handler moves the turn one seat on - EmitEvent's clause; the composed statement did not
+//@   --  discharge and is cross-checked by the engine explorer)
+//@   assert SetCurrentPlayer:3 hasStr(g.gs.Players[g.gs.Status.CurrentPlayer].Positions, "bb")
+//@   assert SetCurrentPlayer:3 forall j :: 0 <= j && j < len(g.gs.Players) && DFROM(g, j) < DFROM(g, g.gs.Status.CurrentPlayer) ==> !hasStr(g.gs.Players[j].Positions, "bb")
 //@   loop 1 invariant 0 <= g.gs.Status.CurrentPlayer && g.gs.Status.CurrentPlayer < len(g.gs.Players) && OTHERSIDLE(g)
+//@   loop 1 invariant [C04] 0 <= loopvar && loopvar <= len(g.gs.Players) && g.gs.Status.CurrentPlayer == ROT(g.dealer.idx, loopvar, len(g.gs.Players))
+//@   loop 1 invariant [C04] forall j :: 0 <= j && j < len(g.gs.Players) && DFROM(g, j) <= loopvar ==> !hasStr(g.gs.Players[j].Positions, "bb")
 
 // ---------------------------------------------------------------------------
 // power.go: the reported hand (C10). The enumeration of admissible selections and the evaluator are covered by
